@@ -191,7 +191,7 @@ func (x *Ctx) Value(pos, atom string) (string, error) {
 	}
 	h := fnv.New32a()
 	h.Write([]byte(pos))
-	rot := int((uint64(x.Seed)*7 + uint64(h.Sum32())) % uint64(len(pool)))
+	rot := int((uint64(x.Seed) + uint64(h.Sum32())) % uint64(len(pool)))
 	return pool[(idx+rot)%len(pool)], nil
 }
 
